@@ -412,7 +412,15 @@ pub fn check(case: &Case, w: usize) -> CheckResult {
         return inconclusive("run timed out".into());
     }
     let Some(doc) = out.json() else {
-        return inconclusive(format!("run produced no JSON: {}", out.brief()));
+        if out.stderr_str().contains("Lock acquisition failed") {
+            return inconclusive(format!("run produced no JSON: {}", out.brief()));
+        }
+        if out.error_type() == "graph" {
+            return Ok(CaseInfo::new(false).class("rejected(C03)").inv(env.invocations));
+        }
+        // `analyze` has just accepted this configuration and repository state: a run that ends
+        // without a result has executed nothing for the targets it had to cover
+        return viol_obs("c05.run.rejected", "`run` ended without a result although `analyze` accepts the same configuration and state".into(), out.brief());
     };
     let run = bb::parse_run(&doc).map_err(|e| Violation::new("c05.output", e))?;
     // with a failing executable only the statements about the result document and "at most
